@@ -6,6 +6,8 @@ import (
 	"go/constant"
 	"go/token"
 	"go/types"
+	"hash/fnv"
+	"strconv"
 	"strings"
 
 	"golang.org/x/tools/go/packages"
@@ -856,6 +858,17 @@ func (se *symExec) fieldAssignedNear(pos token.Pos, field string) bool {
 	return true
 }
 
+// strConstText: the text under which a string constant appears in a table: itself when short, otherwise its
+// beginning and a checksum of the whole.
+func strConstText(quoted string) string {
+	if len(quoted) <= 48 {
+		return quoted
+	}
+	h := fnv.New32a()
+	h.Write([]byte(quoted))
+	return fmt.Sprintf("%s…#%08x\"", quoted[:32], h.Sum32())
+}
+
 func isPurePath(e ast.Expr) bool {
 	switch x := unparen(e).(type) {
 	case *ast.Ident:
@@ -1196,14 +1209,18 @@ func (se *symExec) eval(e ast.Expr, st *sstate) []ev {
 			}
 			return one(st, val{kind: vUnknown, desc: "funclit", lit: fl})
 		}
-		if bl, ok := e.(*ast.BasicLit); ok && se.tableMode && (bl.Kind == token.STRING || bl.Kind == token.CHAR) && len(bl.Value) <= 48 {
-			// decision tables: short string constants (attribute names, messages) are part of the decision
-			return one(st, unk(bl.Value))
+		if bl, ok := e.(*ast.BasicLit); ok && se.tableMode && (bl.Kind == token.STRING || bl.Kind == token.CHAR) {
+			// decision tables: string constants (attribute names, messages) are part of the decision
+			return one(st, unk(strConstText(bl.Value)))
 		}
 		return one(st, unk("lit"))
 	case *ast.Ident:
 		if cv, ok := se.constOf(e); ok {
 			return one(st, cv)
+		}
+		// a named string constant reads as the literal it stands for
+		if tv, ok := se.info.Types[e]; ok && tv.Value != nil && tv.Value.Kind() == constant.String && se.tableMode {
+			return one(st, unk(strConstText(strconv.Quote(constant.StringVal(tv.Value)))))
 		}
 		if x.Name == "nil" {
 			return one(st, val{kind: vErrNil})
@@ -1437,7 +1454,14 @@ func (se *symExec) binop(x *ast.BinaryExpr, l, r val) val {
 			isNil := l.kind == vErrNil
 			return val{kind: vBool, bk: true, b: (x.Op == token.EQL) == isNil}
 		}
-		return val{kind: vBool, desc: se.canon(x)}
+		// an operand that holds a described value (the result of a call kept in a local) is shown as that value
+		side := func(e ast.Expr, v val) string {
+			if _, isId := unparen(e).(*ast.Ident); isId && v.kind == vUnknown && v.desc != "" && v.desc != "lit" && v.lit == nil && strings.Contains(v.desc, "#") {
+				return v.desc
+			}
+			return se.canon(e)
+		}
+		return val{kind: vBool, desc: side(x.X, l) + " " + x.Op.String() + " " + side(x.Y, r)}
 	case token.LAND, token.LOR, token.LSS, token.LEQ, token.GTR, token.GEQ:
 		return val{kind: vBool, desc: se.canon(x)}
 	}
@@ -1636,6 +1660,9 @@ func (se *symExec) branch(cond ast.Expr, st *sstate) (tr, fa []*sstate) {
 		cs := se.canon(cond)
 		if r.v.kind == vBool && r.v.desc != "" && identOf(cond) != nil {
 			cs = r.v.desc // a flag variable is shown as the test that produced it
+		}
+		if be, ok := cond.(*ast.BinaryExpr); ok && (be.Op == token.EQL || be.Op == token.NEQ) && r.v.kind == vBool && r.v.desc != "" && r.v.lin == nil {
+			cs = r.v.desc // operands holding described values are shown as those values
 		}
 		if call, isCall := cond.(*ast.CallExpr); isCall && se.tableMode && len(r.st.calls) > 0 {
 			// a predicate call is shown with the values of its operands, not the names of the locals holding them
